@@ -323,3 +323,28 @@ pub fn run(ctx: &Ctx) {
     }
     ctx.random("templates", ctx.pick(40_000, 400_000), prog_strategy, prog_oracle);
 }
+
+
+// ---- libFuzzer artifacts (thorough tier supplement): same decoder as the fuzz target
+
+mod fuzz_decode {
+    include!("/verif/fuzzhost/fuzz/fuzz_targets/decode.rs");
+}
+
+fn fv_to_rv(v: &fuzz_decode::FV) -> RV {
+    use fuzz_decode::FV;
+    match v {
+        FV::Nil => RV::Nil,
+        FV::Bool(b) => RV::Bool(*b),
+        FV::Int(i) => RV::Int(*i),
+        FV::Float(f) => fl(*f),
+        FV::Str(s) => st(s),
+        FV::Arr(a) => RV::Arr(a.iter().map(fv_to_rv).collect()),
+        FV::Obj(o) => RV::Obj(o.iter().map(|(k, v)| (k.clone(), fv_to_rv(v))).collect()),
+    }
+}
+
+pub fn decode_fuzz_input(bytes: &[u8]) -> Option<Prog> {
+    let (text, globals) = fuzz_decode::decode_input(bytes)?;
+    Some(Prog { src: text.to_string(), partials: vec![], data: RV::Obj(globals.iter().map(|(k, v)| (k.clone(), fv_to_rv(v))).collect()) })
+}
